@@ -29,6 +29,7 @@ import (
 	"encoding/asn1"
 	"encoding/base64"
 	"encoding/hex"
+	"encoding/json"
 	"encoding/pem"
 	"errors"
 	"fmt"
@@ -270,9 +271,23 @@ type c16Entry struct {
 	IDAtSuccess      string
 	numAtSuccess     *big.Int
 	numPending       bool
+	// absentPending: at the last oracle pass the entry was not obliged to be on the served complete CRL
+	// (revoked under auto_rebuild=true, no complete build since) and indeed was not on it
+	absentPending bool
+	// rotatedAfter: crl/rotate reported success (CRL building enabled) after this revocation was reported
+	rotatedAfter bool
 }
 
-type c16Cfg struct{ Auto, Delta, Disable, OcspDisable, AllowExpired bool }
+// c16Cfg is config/crl as the mount itself reports it (read back after every write).
+type c16Cfg struct {
+	Auto, Delta, Disable, OcspDisable, AllowExpired bool
+	Expiry, Grace, DeltaInt                         string
+}
+
+// c16Timings: (expiry, auto_rebuild_grace_period, delta_rebuild_interval) triples that the documentation
+// accepts together (grace and interval strictly shorter than the expiry). Every expiry is at least a day
+// longer than its grace period, so the periodic function never finds a CRL "about to expire".
+var c16Timings = [][3]string{{"72h", "12h", "15m"}, {"48h", "8h", "10m"}, {"36h", "1h", "5m"}, {"96h", "24h", "30m"}}
 
 type c16Obs struct {
 	num *big.Int
@@ -310,6 +325,9 @@ type c16World struct {
 	broken bool
 	// issuer ids whose complete CRL a successful crl/rotate must have replaced
 	expectRebuilt map[string]bool
+	// pendingAbsent: number of ledger entries with absentPending at the last oracle pass
+	pendingAbsent int
+	nchecks       int
 }
 
 var c16Ctx = context.Background()
@@ -353,6 +371,7 @@ func c16NewWorld(r *kit.Result, caseID string) *c16World {
 			panic(fmt.Sprintf("c16: role: %v", err))
 		}
 	}
+	w.readCfg()
 	return w
 }
 
@@ -366,7 +385,7 @@ func (w *c16World) close() {
 // fork copies the mount (storage bytes) and the harness' knowledge into an
 // independent world served by a fresh backend instance.
 func (w *c16World) fork(caseID string) *c16World {
-	n := &c16World{r: w.r, caseID: caseID, ledger: map[string]*c16Entry{}, obs: map[string]c16Obs{}, seen: map[string]bool{}, cfg: w.cfg, nforge: w.nforge}
+	n := &c16World{r: w.r, caseID: caseID, ledger: map[string]*c16Entry{}, obs: map[string]c16Obs{}, seen: map[string]bool{}, cfg: w.cfg, nforge: w.nforge, pendingAbsent: w.pendingAbsent, nchecks: w.nchecks}
 	n.raw = c16Restore(c16Snapshot(w.raw))
 	n.st = &c16Store{inner: n.raw}
 	n.iss = append([]c16Issuer(nil), w.iss...)
@@ -385,6 +404,12 @@ func (w *c16World) fork(caseID string) *c16World {
 		panic(fmt.Sprintf("c16: fork backend: %v", err))
 	}
 	n.b = b
+	// A fork stands for "the same running process, continued": the one piece of in-memory state of the
+	// original instance that decides what CRL readers do (rebuild before serving or not) is carried over,
+	// otherwise every fork would behave like a freshly restarted mount (restarts are exercised explicitly).
+	if w.b != nil {
+		n.b.crlBuilder.forceRebuild.Store(w.b.crlBuilder.forceRebuild.Load())
+	}
 	return n
 }
 
@@ -427,6 +452,12 @@ func (w *c16World) do(op logical.Operation, path string, data map[string]any) (*
 		data = map[string]any{}
 	}
 	return w.b.HandleRequest(c16Ctx, &logical.Request{Operation: op, Path: path, Data: data, Storage: w.st, MountPoint: "pki/"})
+}
+
+// doRaw sends a read on behalf of the harness itself: it goes to the mount's storage directly, so it is
+// neither journalled nor able to consume an armed fault.
+func (w *c16World) doRaw(op logical.Operation, path string) (*logical.Response, error) {
+	return w.b.HandleRequest(c16Ctx, &logical.Request{Operation: op, Path: path, Data: map[string]any{}, Storage: w.raw, MountPoint: "pki/"})
 }
 
 func c16OK(resp *logical.Response, err error) bool {
@@ -858,6 +889,9 @@ func (w *c16World) rotate() bool {
 	if ok {
 		w.r.Count("rotations", 1)
 		if !w.cfg.Disable {
+			for _, e := range w.ledger {
+				e.rotatedAfter = true
+			}
 			w.expectRebuilt = map[string]bool{}
 			for _, i := range w.present() {
 				w.expectRebuilt[w.iss[i].ID] = true
@@ -914,33 +948,135 @@ func (w *c16World) tidy(certStore, revoked, assoc bool) bool {
 	return state == "Finished"
 }
 
+// setCfg writes every field of config/crl (a "full" write). Empty timing fields mean the defaults.
 func (w *c16World) setCfg(n c16Cfg) bool {
 	if !n.Auto {
 		n.Delta = false
 	}
-	resp, err := w.do(logical.UpdateOperation, "config/crl", map[string]any{
+	if n.Expiry == "" {
+		n.Expiry = c16Timings[0][0]
+	}
+	if n.Grace == "" {
+		n.Grace = c16Timings[0][1]
+	}
+	if n.DeltaInt == "" {
+		n.DeltaInt = c16Timings[0][2]
+	}
+	return w.writeCfg(map[string]any{
 		"auto_rebuild": n.Auto, "enable_delta": n.Delta, "disable": n.Disable, "ocsp_disable": n.OcspDisable,
 		"allow_expired_cert_revocation": n.AllowExpired,
+		"expiry":                        n.Expiry, "auto_rebuild_grace_period": n.Grace, "delta_rebuild_interval": n.DeltaInt,
 	})
+}
+
+// writeCfg sends the given fields (possibly only some) to config/crl. Whatever the answer, the mount's
+// own report of its configuration (read back through the API, bypassing fault injection) is what the
+// oracle uses from then on: "auto-rebuild off" in the property is what config/crl says.
+func (w *c16World) writeCfg(data map[string]any) bool {
+	old := w.cfg
+	resp, err := w.do(logical.UpdateOperation, "config/crl", data)
 	ok := c16OK(resp, err)
-	w.step("config/crl %+v -> %s", n, c16Why(resp, err))
-	if ok {
-		w.cfg = n
-		w.r.Count("config_changes", 1)
-		return true
-	}
-	// a failed write may or may not have stored the configuration: read it back
 	w.readCfg()
-	return false
+	js, _ := json.Marshal(data)
+	w.step("config/crl %s -> %s; config/crl now reads %+v", js, c16Why(resp, err), w.cfg)
+	w.r.Count("config_writes", 1)
+	if !ok {
+		w.r.Count("config_writes_not_accepted", 1)
+		if w.cfg != old {
+			w.r.Count("config_changed_by_unaccepted_write", 1)
+		}
+	} else {
+		w.r.Count("config_changes", 1)
+		// what was asked for and accepted should be what is read back; a difference is not covered by the
+		// property's wording (the oracle follows the read-back), it is noted
+		cur := map[string]any{"auto_rebuild": w.cfg.Auto, "enable_delta": w.cfg.Delta, "disable": w.cfg.Disable, "ocsp_disable": w.cfg.OcspDisable,
+			"allow_expired_cert_revocation": w.cfg.AllowExpired, "expiry": w.cfg.Expiry, "auto_rebuild_grace_period": w.cfg.Grace, "delta_rebuild_interval": w.cfg.DeltaInt}
+		for k, v := range data {
+			if cv, have := cur[k]; have && cv != v {
+				w.r.Count("config_readback_differs_from_accepted_write", 1)
+				if c16NoteOnce(w.r.Name + "|cfg-readback|" + k) {
+					w.r.Note("case %s: config/crl accepted %s=%v but reads back %v", w.caseID, k, v, cv)
+				}
+			}
+		}
+	}
+	w.countTransitions(old, w.cfg)
+	return ok
+}
+
+// countTransitions records which kinds of configuration transitions the run exercised.
+func (w *c16World) countTransitions(old, n c16Cfg) {
+	c := func(k string) { w.r.Count("cfgtrans:"+k, 1) }
+	if old == n {
+		c("none")
+		return
+	}
+	switch {
+	case !old.Auto && n.Auto && n.Delta:
+		c("auto_on_with_delta")
+	case !old.Auto && n.Auto:
+		c("auto_on_without_delta")
+	case old.Auto && !n.Auto:
+		c("auto_off")
+		if old.Delta {
+			c("auto_off_from_delta")
+		} else {
+			c("auto_off_from_no_delta")
+		}
+		if w.pendingAbsent > 0 && !n.Disable {
+			// revocations reported successful under auto-rebuild that no complete CRL lists yet
+			c("auto_off_with_pending_revocations")
+			if !old.Delta {
+				c("auto_off_with_pending_revocations_delta_never_on")
+			}
+		}
+	}
+	if old.Auto && n.Auto && old.Delta != n.Delta {
+		if n.Delta {
+			c("delta_on")
+		} else {
+			c("delta_off")
+		}
+	}
+	if old.Disable != n.Disable {
+		if n.Disable {
+			c("disable_on")
+		} else {
+			c("disable_off")
+			if len(w.ledger) > 0 {
+				c("disable_off_with_ledger")
+			}
+			if n.Auto {
+				c("disable_off_under_auto_rebuild")
+			}
+		}
+	}
+	if old.Expiry != n.Expiry {
+		c("expiry_change")
+	}
+	if old.Grace != n.Grace {
+		c("grace_period_change")
+	}
+	if old.DeltaInt != n.DeltaInt {
+		c("delta_interval_change")
+	}
+	if old.OcspDisable != n.OcspDisable {
+		c("ocsp_disable_flip")
+	}
+	if old.AllowExpired != n.AllowExpired {
+		c("allow_expired_flip")
+	}
 }
 
 func (w *c16World) readCfg() {
-	resp, err := w.do(logical.ReadOperation, "config/crl", nil)
+	resp, err := w.doRaw(logical.ReadOperation, "config/crl")
 	if !c16OK(resp, err) || resp == nil {
 		return
 	}
 	g := func(k string) bool { v, _ := resp.Data[k].(bool); return v }
-	w.cfg = c16Cfg{Auto: g("auto_rebuild"), Delta: g("enable_delta"), Disable: g("disable"), OcspDisable: g("ocsp_disable"), AllowExpired: g("allow_expired_cert_revocation")}
+	s := func(k string) string { v, _ := resp.Data[k].(string); return v }
+	w.cfg = c16Cfg{Auto: g("auto_rebuild"), Delta: g("enable_delta"), Disable: g("disable"), OcspDisable: g("ocsp_disable"), AllowExpired: g("allow_expired_cert_revocation"),
+		Expiry: s("expiry"), Grace: s("auto_rebuild_grace_period"), DeltaInt: s("delta_rebuild_interval")}
 }
 
 // ------------------------------------------------------------------ oracle
@@ -989,6 +1125,52 @@ func (w *c16World) rawBody(path string) ([]byte, string) {
 	}
 	return b, ""
 }
+
+// crlDER fetches a CRL through any of the API's CRL endpoints and returns its DER bytes: raw DER bodies,
+// raw PEM bodies and the JSON forms ("crl" / "certificate" holding PEM) are all understood.
+func (w *c16World) crlDER(path string) ([]byte, string) {
+	resp, err := w.do(logical.ReadOperation, path, nil)
+	if err != nil {
+		return nil, "error: " + err.Error()
+	}
+	if resp == nil {
+		return nil, "nil response"
+	}
+	if resp.IsError() {
+		return nil, "refused: " + resp.Error().Error()
+	}
+	w.r.Count("crl_endpoint_reads", 1)
+	var pemBytes []byte
+	if _, isRaw := resp.Data[logical.HTTPRawBody]; isRaw {
+		b, _ := resp.Data[logical.HTTPRawBody].([]byte)
+		if len(b) == 0 {
+			return nil, fmt.Sprintf("empty body (status %v)", resp.Data[logical.HTTPStatusCode])
+		}
+		if !strings.HasSuffix(path, "/pem") {
+			return b, ""
+		}
+		pemBytes = b
+	} else if v, ok := resp.Data["crl"].(string); ok {
+		pemBytes = []byte(v)
+	} else if v, ok := resp.Data["certificate"].(string); ok {
+		pemBytes = []byte(v)
+	} else {
+		return nil, "response carries no CRL"
+	}
+	blk, _ := pem.Decode(pemBytes)
+	if blk == nil || blk.Type != "X509 CRL" {
+		return nil, "body is not a PEM X509 CRL"
+	}
+	return blk.Bytes, ""
+}
+
+// c16IssuerCRLPaths: every endpoint that serves the complete CRL of one issuer reference.
+func c16IssuerCRLPaths(ref string) []string {
+	return []string{"issuer/" + ref + "/crl/der", "issuer/" + ref + "/crl/pem", "issuer/" + ref + "/crl"}
+}
+
+// c16DefaultCRLPaths: the endpoints that serve the default issuer's complete CRL.
+var c16DefaultCRLPaths = []string{"crl", "crl/pem", "cert/crl", "cert/crl/raw", "cert/crl/raw/pem", "issuer/default/crl/der", "issuer/default/crl/pem", "issuer/default/crl"}
 
 type c16Status struct {
 	found bool
@@ -1054,6 +1236,23 @@ func (w *c16World) ocspStatus(c *c16Cert) c16Ocsp {
 	return out
 }
 
+// c16DescribeCRL renders what an endpoint served, for witnesses.
+func c16DescribeCRL(der []byte, why string) string {
+	if der == nil {
+		return "no CRL (" + why + ")"
+	}
+	rl, err := x509.ParseRevocationList(der)
+	if err != nil {
+		return "unparsable bytes"
+	}
+	var ss []string
+	for _, e := range rl.RevokedCertificateEntries {
+		ss = append(ss, c16Serial(e.SerialNumber))
+	}
+	sort.Strings(ss)
+	return fmt.Sprintf("CRL #%s listing %d serial(s) %v", c16NumStr(rl.Number), len(ss), ss)
+}
+
 func c16NumStr(n *big.Int) string {
 	if n == nil {
 		return "<none>"
@@ -1077,6 +1276,41 @@ func (w *c16World) check(at string) {
 		bySerial[w.certs[i].Serial] = i
 	}
 
+	// ---- which CRL endpoint is read first in this pass rotates from pass to pass: a pending rebuild (after a
+	// restart, after a failed build) has to be carried out by whichever reader comes first, so what the first
+	// reader is served must be what every other endpoint of the same issuer serves right afterwards
+	w.nchecks++
+	type firstRead struct {
+		path string
+		iss  string // issuer id
+		der  []byte
+		why  string
+	}
+	var first *firstRead
+	{
+		type ep struct{ path, iss string }
+		var all []ep
+		for i := range w.iss {
+			if w.iss[i].ID == "" {
+				continue
+			}
+			for _, p := range c16IssuerCRLPaths(w.iss[i].ID) {
+				all = append(all, ep{p, w.iss[i].ID})
+			}
+			if w.iss[i].ID == def {
+				for _, p := range c16DefaultCRLPaths {
+					all = append(all, ep{p, def})
+				}
+			}
+		}
+		if len(all) > 0 {
+			e := all[w.nchecks%len(all)]
+			first = &firstRead{path: e.path, iss: e.iss}
+			first.der, first.why = w.crlDER(e.path)
+			r.Count("first_read_endpoint:"+strings.ReplaceAll(e.path, e.iss, "<id>"), 1)
+		}
+	}
+
 	// ---- every present issuer's complete CRL
 	crls := map[int]*x509.RevocationList{}
 	for i := range w.iss {
@@ -1084,7 +1318,10 @@ func (w *c16World) check(at string) {
 		if is.ID == "" {
 			continue
 		}
-		raw, why := w.rawBody("issuer/" + is.ID + "/crl/der")
+		raw, why := w.crlDER("issuer/" + is.ID + "/crl/der")
+		if first != nil && first.iss == is.ID && !bytes.Equal(first.der, raw) {
+			w.violate("C16-crl-endpoints-disagree", fmt.Sprintf("[%s] %s, the first CRL endpoint read in this pass, served %s for issuer %s; issuer/<id>/crl/der read right afterwards serves %s", at, strings.ReplaceAll(first.path, is.ID, "<id>"), c16DescribeCRL(first.der, first.why), is.Name, c16DescribeCRL(raw, why)), nil)
+		}
 		if raw == nil {
 			w.violate("C16-crl-unavailable", fmt.Sprintf("[%s] no complete CRL is served for issuer %s: %s", at, is.Name, why), nil)
 			continue
@@ -1107,12 +1344,22 @@ func (w *c16World) check(at string) {
 			continue
 		}
 		r.Count("crls_verified", 1)
+		r.Count("crls_parsed", 1)
 		sum := sha256.Sum256(raw)
+		if _, ok := w.obs[is.ID]; ok {
+			r.Count("crl_number_comparisons", 1)
+		}
 		if prev, ok := w.obs[is.ID]; ok && prev.sum == sum && w.expectRebuilt[is.ID] {
 			w.violate("C16-rotate-did-not-rebuild", fmt.Sprintf("[%s] crl/rotate reported success but issuer %s still serves the same complete CRL #%s", at, is.Name, rl.Number), nil)
 		}
 		if prev, ok := w.obs[is.ID]; ok && prev.sum != sum {
 			r.Count("crl_rebuilds_observed", 1)
+			if rl.Number.Cmp(prev.num) > 0 {
+				r.Count("crl_number_increase_confirmed", 1)
+				if w.cfg.Auto {
+					r.Count("crl_number_increase_confirmed_under_auto_rebuild", 1)
+				}
+			}
 			if !w.cfg.Disable {
 				for j := range w.iss {
 					if w.iss[j].Group == is.Group {
@@ -1136,32 +1383,20 @@ func (w *c16World) check(at string) {
 		w.obs[is.ID] = c16Obs{num: rl.Number, sum: sum}
 		crls[i] = rl
 
-		// the legacy endpoints serve the default issuer's CRL
+		// every other endpoint of this issuer serves the same bytes
+		paths := c16IssuerCRLPaths(is.ID)[1:]
 		if is.ID == def {
-			for _, p := range []string{"crl", "crl/pem", "cert/crl"} {
-				var got []byte
-				if p == "cert/crl" {
-					if resp, err := w.do(logical.ReadOperation, p, nil); c16OK(resp, err) && resp != nil {
-						if blk, _ := pem.Decode([]byte(fmt.Sprint(resp.Data["certificate"]))); blk != nil {
-							got = blk.Bytes
-						}
-					}
-				} else {
-					b, _ := w.rawBody(p)
-					if p == "crl/pem" {
-						if blk, _ := pem.Decode(b); blk != nil {
-							b = blk.Bytes
-						} else {
-							b = nil
-						}
-					}
-					got = b
-				}
+			paths = append(paths, c16DefaultCRLPaths...)
+		}
+		for _, p := range paths {
+			got, gwhy := w.crlDER(p)
+			if is.ID == def {
 				r.Count("legacy_endpoint_checks", 1)
-				if !bytes.Equal(got, raw) {
-					// a rebuild triggered by the first fetch cannot explain a difference: all fetch paths rebuild first
-					w.violate("C16-crl-endpoints-disagree", fmt.Sprintf("[%s] %s does not serve the default issuer's complete CRL", at, p), nil)
-				}
+			}
+			r.Count("crl_endpoint_comparisons", 1)
+			if !bytes.Equal(got, raw) {
+				// a rebuild triggered by the first fetch cannot explain a difference: all fetch paths rebuild first
+				w.violate("C16-crl-endpoints-disagree", fmt.Sprintf("[%s] %s serves %s, issuer/<id>/crl/der of issuer %s serves complete CRL #%s", at, strings.ReplaceAll(p, is.ID, "<id>"), c16DescribeCRL(got, gwhy), is.Name, rl.Number), nil)
 			}
 		}
 
@@ -1206,6 +1441,7 @@ func (w *c16World) check(at string) {
 		}
 		w.violate(class, what, extra)
 	}
+	pendingAbsent := 0
 	for _, serial := range w.order {
 		e := w.ledger[serial]
 		c := &w.certs[e.Cert]
@@ -1266,6 +1502,7 @@ func (w *c16World) check(at string) {
 		ciss := w.crlIssuer(c.Iss)
 		if ciss < 0 {
 			r.Count("crl_not_obliged_issuer_removed", 1)
+			e.absentPending = false
 			continue
 		}
 		if ciss != c.Iss {
@@ -1278,19 +1515,22 @@ func (w *c16World) check(at string) {
 		}
 		if w.cfg.Disable {
 			r.Count("crl_not_obliged_disabled", 1)
+			e.absentPending = false
 			e.numPending = false // any CRL built once building is enabled again is "built afterwards"
 			e.IDAtSuccess = ""
 			continue
 		}
 		builtAfter := e.IDAtSuccess != is.ID || (!e.numPending && e.numAtSuccess != nil && rl.Number.Cmp(e.numAtSuccess) > 0)
-		must := e.AutoOffAtSuccess || builtAfter
+		// The obligation follows the configuration in force NOW (as config/crl reports it):
+		//  * auto-rebuild off: "the CRL served once the revoke call has returned already lists the serial" -
+		//    every call that reported this serial revoked has returned, so the CRL served now lists it,
+		//    whatever the configuration was when the revocation was first reported;
+		//  * auto-rebuild on: the serial is on every complete CRL built after the report, in particular on
+		//    the one built by an explicit crl/rotate that succeeded after the report, and on all later ones.
+		must := !w.cfg.Auto || e.AutoOffAtSuccess || builtAfter || e.rotatedAfter
 		if e.numPending && e.IDAtSuccess == is.ID {
 			e.numAtSuccess = rl.Number
 			e.numPending = false
-		}
-		if !must {
-			r.Count("crl_not_obliged_auto_rebuild_pending", 1)
-			continue
 		}
 		var hit *x509.RevocationListEntry
 		for k := range rl.RevokedCertificateEntries {
@@ -1298,6 +1538,25 @@ func (w *c16World) check(at string) {
 				hit = &rl.RevokedCertificateEntries[k]
 				break
 			}
+		}
+		if !must {
+			r.Count("crl_not_obliged_auto_rebuild_pending", 1)
+			if hit == nil {
+				e.absentPending = true
+				pendingAbsent++
+				r.Count("crl_absent_while_auto_rebuild_pending", 1)
+			}
+			continue
+		}
+		switch {
+		case !w.cfg.Auto && !e.AutoOffAtSuccess:
+			r.Count("crl_obliged_auto_off_now_revoked_under_auto", 1)
+		case !w.cfg.Auto:
+			r.Count("crl_obliged_auto_off", 1)
+		case e.rotatedAfter:
+			r.Count("crl_obliged_after_rotate_under_auto", 1)
+		default:
+			r.Count("crl_obliged_later_build_under_auto", 1)
 		}
 		if hit != nil {
 			if hit.RevocationTime.Unix() != e.RevTime {
@@ -1307,11 +1566,22 @@ func (w *c16World) check(at string) {
 			if builtAfter {
 				r.Count("crl_presence_confirmed_in_later_build", 1)
 			}
+			if e.absentPending {
+				// was pending (absent, not obliged) at the previous pass, is obliged and present now
+				r.Count("pending_revocation_seen_published", 1)
+				if !w.cfg.Auto {
+					r.Count("pending_revocation_seen_published_on_leaving_auto_rebuild", 1)
+				}
+				e.absentPending = false
+			}
 			continue
 		}
+		wasPending := e.absentPending
+		e.absentPending = false
 		// missing: classify
 		class := "C16-serial-missing-from-crl"
-		extra := map[string]any{"serial": serial, "issuer": is.Name, "served_crl_number": rl.Number.String(), "via": e.Via, "revocation_record_visible": st.found && st.rt > 0}
+		extra := map[string]any{"serial": serial, "issuer": is.Name, "served_crl_number": rl.Number.String(), "via": e.Via, "revocation_record_visible": st.found && st.rt > 0,
+			"auto_rebuild_now": w.cfg.Auto, "auto_rebuild_off_when_first_reported": e.AutoOffAtSuccess, "complete_crl_built_since_report": builtAfter, "crl_rotate_succeeded_since_report": e.rotatedAfter}
 		if w.cut != nil && w.cut.RecordExisted[serial] && !w.cfg.Auto && st.found && st.rt > 0 {
 			if nb := w.cut.numBefore[is.ID]; nb != nil && nb.Cmp(rl.Number) == 0 {
 				// F5 signature: the record exists, the CRL build that followed it was interrupted, no build
@@ -1335,8 +1605,21 @@ func (w *c16World) check(at string) {
 				}
 			}
 		}
-		ev(e, class, fmt.Sprintf("[%s] complete CRL #%s of issuer %s does not list %s although its revocation was reported successful (via %s, auto_rebuild=%v)", at, rl.Number, is.Name, serial, e.Via, w.cfg.Auto), extra)
+		if class == "C16-serial-missing-from-crl" {
+			switch {
+			case !w.cfg.Auto && !e.AutoOffAtSuccess && !builtAfter && w.cut == nil:
+				// reported revoked while auto-rebuild was on, never published since; auto-rebuild is off now and
+				// nothing was interrupted: leaving auto-rebuild mode did not publish the pending revocations
+				class = "C16-pending-revocation-missing-from-crl-with-auto-rebuild-off"
+				extra["was_pending_at_previous_pass"] = wasPending
+			case w.cfg.Auto && e.rotatedAfter && !e.AutoOffAtSuccess && w.cut == nil:
+				// reported revoked under auto-rebuild, an explicit crl/rotate succeeded afterwards, still not listed
+				class = "C16-revocation-under-auto-rebuild-missing-from-crl-after-rotate"
+			}
+		}
+		ev(e, class, fmt.Sprintf("[%s] complete CRL #%s of issuer %s does not list %s although its revocation was reported successful (via %s) and config/crl reads auto_rebuild=%v disable=%v", at, rl.Number, is.Name, serial, e.Via, w.cfg.Auto, w.cfg.Disable), extra)
 	}
+	w.pendingAbsent = pendingAbsent
 
 	// ---- certificates nobody revoked stay unrevoked (a few per check)
 	n := 0
